@@ -12,7 +12,7 @@ from .. import env
 from .. import gen, build, mcase, monitors
 
 ID = "C19"
-CASES = {"quick": 1600, "thorough": 150000}
+CASES = {"quick": 12000, "thorough": 200000}
 MIN_CASES_PER_SHARD = 30
 CASE_TIMEOUT = 60
 RULE = ("one case = generated map x trace (outliers, first observation too far or too improbable) x configuration (all families, non-emitting "
@@ -113,6 +113,6 @@ def check_case(ctx, case):
 
 
 TECHNIQUE = "runtime monitoring: differential monitor over sibling executions (package logger at default level vs DEBUG, with null or stream handler) of generated operation histories"
-LEVEL_TEXT = ("1.6k (quick) / 150k (thorough) histories executed twice; returned states, index, best-path keys and probabilities after every operation "
+LEVEL_TEXT = ("{Q} (quick) / {T} (thorough) histories executed twice; returned states, index, best-path keys and probabilities after every operation "
               "must be identical; the number of DEBUG runs that really materialised stopped lattice entries is measured and has a floor. Held-on-observed.")
 LEVEL_NOTE = "Trusted: nothing beyond the two executions."
